@@ -15,6 +15,8 @@ import (
 	"encoding/binary"
 	"encoding/hex"
 	"fmt"
+	"hash/crc32"
+	"os"
 	"reflect"
 	"runtime"
 	"runtime/debug"
@@ -207,7 +209,11 @@ func vshortStrings(maxLen int, from int, fn func(idx int, m vmutation, data []by
 
 // vregions: byte ranges of seed that are covered by a record-batch / message checksum or hold a length
 // field of a record format (found by locating the separately encoded record sets inside the seed).
-type vregion struct{ lo, hi int }
+type vregion struct {
+	lo, hi int
+	crcAt  int  // >0: the 4 bytes at this offset hold the checksum of [lo,hi)
+	c      bool // CRC-32C (record batch) instead of IEEE (legacy message)
+}
 
 func vrecordRegions(root reflect.Value, seed []byte) (regions []vregion, has bool) {
 	add := func(b []byte, walk func(base int)) {
@@ -227,7 +233,7 @@ func vrecordRegions(root reflect.Value, seed []byte) (regions []vregion, has boo
 		if end > len(b) {
 			end = len(b)
 		}
-		regions = append(regions, vregion{base + 8, base + 12}, vregion{base + 21, base + end})
+		regions = append(regions, vregion{lo: base + 8, hi: base + 12}, vregion{lo: base + 21, hi: base + end, crcAt: base + 17, c: true})
 	}
 	var setRegions func(base int, b []byte)
 	setRegions = func(base int, b []byte) {
@@ -237,7 +243,7 @@ func vrecordRegions(root reflect.Value, seed []byte) (regions []vregion, has boo
 			if size < 0 || off+12+size > len(b) {
 				break
 			}
-			regions = append(regions, vregion{base + off + 8, base + off + 12}, vregion{base + off + 16, base + off + 12 + size})
+			regions = append(regions, vregion{lo: base + off + 8, hi: base + off + 12}, vregion{lo: base + off + 16, hi: base + off + 12 + size, crcAt: base + off + 12})
 			off += 12 + size
 		}
 	}
@@ -264,6 +270,35 @@ func vrecordRegions(root reflect.Value, seed []byte) (regions []vregion, has boo
 
 // vvisitAll is vvisit that also visits RecordBatch / MessageSet structs reached through pointers.
 func vvisitAll(v reflect.Value, fn func(reflect.Value)) { vvisit(v, fn) }
+
+// vtwinProgress: progress hook of the running unit (a death inside the valid-checksum twin is attributed to it).
+var vtwinProgress func(string)
+
+// vtwinFloor: a corrupted payload with a matching checksum is indistinguishable, for the decompressor, from a payload that
+// legitimately needs its working window; only allocations that are clearly disproportionate are reported for the twin.
+const vtwinFloor = 16 << 20
+
+// vfixCRCs recomputes the checksums of the regions of the seed inside (mutated) data.
+func vfixCRCs(rs []vregion, data []byte) ([]byte, bool) {
+	out := append([]byte{}, data...)
+	changed := false
+	for _, r := range rs {
+		if r.crcAt <= 0 || r.hi > len(out) || r.crcAt+4 > len(out) || r.lo > r.hi {
+			continue
+		}
+		var sum uint32
+		if r.c {
+			sum = crc32.Checksum(out[r.lo:r.hi], crc32.MakeTable(crc32.Castagnoli))
+		} else {
+			sum = crc32.ChecksumIEEE(out[r.crcAt+4 : r.hi])
+		}
+		if binary.BigEndian.Uint32(out[r.crcAt:]) != sum {
+			binary.BigEndian.PutUint32(out[r.crcAt:], sum)
+			changed = true
+		}
+	}
+	return out, changed
+}
 
 func vinRegions(rs []vregion, m vmutation) bool {
 	if m.class == "truncate" || m.class == "valid" || m.class == "short" {
@@ -502,6 +537,7 @@ func VerifC10RunUnit(unit string, from, to int, skip map[int]bool, progress func
 			}
 			caseID := fmt.Sprintf("%s#%d", unit, total+i)
 			progress(caseID)
+			vtwinProgress = progress
 			if vc10case(u, seed, caseID, m, data, &res, seen) {
 				res.Recycle = true
 				res.Next = total + i + 1
@@ -516,6 +552,20 @@ func VerifC10RunUnit(unit string, from, to int, skip map[int]bool, progress func
 				fam := res.Family
 				res = fresh()
 				res.Family = fam
+				// the process accumulates caches (decoded seeds, pooled decompressors): long before its heap nears the
+				// address-space cap - where an innocent case would be blamed for the death - ask for a fresh process
+				var ms runtime.MemStats
+				runtime.ReadMemStats(&ms)
+				if ms.HeapInuse > 160<<20 {
+					runtime.GC()
+					debug.FreeOSMemory()
+					runtime.ReadMemStats(&ms)
+					if ms.HeapInuse > 128<<20 {
+						res.Recycle = true
+						res.Next = total + i + 1
+						return false
+					}
+				}
 			}
 			return true
 		}
@@ -725,6 +775,39 @@ func vc10case(u *vc10unit, seed *vc10seed, caseID string, m vmutation, data []by
 		debug.FreeOSMemory()
 	} else if res.Cases%2000 == 0 {
 		runtime.GC()
+	}
+	// the same corruption with a matching checksum (a payload corrupted before the checksum was computed): the
+	// checksum no longer protects the decompressor / the record reader, which must still not panic or over-allocate
+	if err != nil && seed.hasRe && vinRegions(seed.regs, m) && m.class != "valid" && os.Getenv("VERIF_C10_NOTWIN") == "" {
+		if fixed, ok := vfixCRCs(seed.regs, input); ok {
+			res.Cases++
+			res.ByClass[m.class+"+crc"]++
+			if vtwinProgress != nil {
+				vtwinProgress(caseID + "+crc")
+			}
+			allowance := allowance
+			if allowance < vtwinFloor {
+				allowance = vtwinFloor
+			}
+			_, err2, alloc2 := vdecodeMeasured(dec, append([]byte{}, fixed...), u.ver)
+			if p, isPanic := err2.(*vpanic); isPanic {
+				input = fixed
+				report("panic", vpanicKind(fmt.Sprint(p.val))+" valid-crc", fmt.Sprintf("decode panicked on a corrupted payload with a matching checksum: %v\nat %s", p.val, p.stack))
+			} else if alloc2 > allowance {
+				_, _, alloc3 := vdecodeMeasured(dec, append([]byte{}, fixed...), u.ver)
+				if alloc3 < alloc2 {
+					alloc2 = alloc3
+				}
+				if alloc2 > allowance {
+					input = fixed
+					report("alloc", "excessive valid-crc", fmt.Sprintf("decode allocated %d bytes for a %d-byte input whose payload is corrupted but whose checksum matches (allowance %d); result: %v", alloc2, len(fixed), allowance, err2))
+				}
+			}
+			if alloc2 > 64<<20 {
+				runtime.GC()
+				debug.FreeOSMemory()
+			}
+		}
 	}
 	if err != nil {
 		res.Outcomes["error"]++
